@@ -208,6 +208,7 @@ def run(tier, seed, build):
     from props.bodygen import PREAMBLE
     wit_names = [l.split("(")[0][4:] for l in WITNESSES.splitlines() if l.startswith("def ")]
     cases = vl.run_batch(rng, n_modules, model, extra_sources=[(PREAMBLE + WITNESSES, wit_names)])
+    cases += vl.run_file_batch(rng, n_modules // 3, model)
     trees = {}
     for c in cases:
         res.evaluations += 1
@@ -217,7 +218,10 @@ def run(tier, seed, build):
         tree = trees.get(c.module_src)
         if tree is None:
             tree = trees[c.module_src] = ast.parse(c.module_src)
-        fn = next(n for n in tree.body if isinstance(n, (ast.FunctionDef, ast.AsyncFunctionDef)) and n.name == c.name)
+        if isinstance(c.fn, ast.Lambda):
+            continue            # a lambda body is a single expression: no statements to read straight-line
+        fn = next(n for n in ast.walk(tree) if isinstance(n, (ast.FunctionDef, ast.AsyncFunctionDef))
+                  and n.name == c.name and n.lineno == c.fn.lineno)
         anywhere = binder.bound_anywhere(tree)
         if any(isinstance(n, (ast.Assign, ast.For, ast.With, ast.NamedExpr, ast.AugAssign, ast.AnnAssign)) for n in ast.walk(fn)):
             res.nontrivial.add(common.digest(c.fn_src))
